@@ -42,7 +42,7 @@ Proof. reflexivity. Qed.
 Lemma no_alias omit nrefs sh data res :
   decode_record omit nrefs sh data = Ok res -> snd res = false.
 Proof.
-  unfold decode_record.
+  unfold decode_record, bam_Read_nameLen, bam_Read_cigarLen, bam_Read_seqLen.
   destruct (read_fixed bam_Read_fixed (data, false) (fun _ => 0)) as [env b].
   destruct (env 3 <? 1); [discriminate|].
   destruct (b_unsafe b (env 3 - 1)) as [nm b1].
@@ -100,7 +100,7 @@ Qed.
 Theorem decode_total omit nrefs sh data :
   all_bytes data = true -> ok_or_err (decode_record omit nrefs sh data).
 Proof.
-  intros Hd. unfold decode_record.
+  intros Hd. unfold decode_record, bam_Read_nameLen, bam_Read_cigarLen, bam_Read_seqLen.
   pose proof (read_fixed_bytes bam_Read_fixed (data, false) (fun _ => 0) Hd) as Hb0.
   destruct (read_fixed bam_Read_fixed (data, false) (fun _ => 0)) as [env b]. cbn [snd] in Hb0.
   destruct (env 3 <? 1); [right; eexists; reflexivity|].
